@@ -54,7 +54,7 @@ def _container(case, srcs):
         return [srcs[k] for k in order], {k: pos for pos, k in enumerate(order)}
     if case["form"] == "tuple":
         return tuple(srcs[k] for k in order), {k: pos for pos, k in enumerate(order)}
-    keys = {"dict_int": lambda k: 10 + k, "dict_str": lambda k: "sv%c" % (97 + k)}[case["form"]]
+    keys = {"dict_int": lambda k: 10 + k, "dict_str": lambda k: "sv%02d" % k}[case["form"]]
     d = {}
     for k in order:
         d[keys(k)] = srcs[k]
@@ -207,6 +207,14 @@ def build_cases(quick, seed):
                             for order in itertools.permutations(range(S)):
                                 cases.append(dict(assign=list(f), order=list(order), form=form, scramble=False, jit=jit,
                                                   ties=[[a, b]], lnl=(form == "list" and n <= 3)))
+    # many surveys (offset names dv0_10, dv0_11 sort before dv0_2 as strings): 12 sources, every one a different prior width
+    S = 12
+    for rot in (0, 5):
+        for extra in (0, 3):
+            assign = [(j + rot) % S for j in range(S)] + [((7 * j) + 2) % S for j in range(extra)]
+            for order in (list(range(S)), list(range(S))[::-1], [(5 * k + 3) % S for k in range(S)]):
+                for form in ("list", "dict_str"):
+                    cases.append(dict(assign=assign, order=order, form=form, scramble=False, jit=jit, lnl=True))
     return cases
 
 
@@ -214,7 +222,7 @@ def main():
     chk = core.Check(
         PID, "exploration",
         "surveys S<=3; every surjection of N<=5 (quick) / 6 time slots onto surveys (all interleavings); layouts with "
-        "identical epochs in two surveys; list / tuple / dict(int keys) / dict(str keys) input in every survey order; "
+        "identical epochs in two surveys; 12 surveys with 12 distinct offset priors; list / tuple / dict(int keys) / dict(str keys) input in every survey order; "
         "sources internally scrambled; unique velocity/error tags identify each observation. Oracle on "
         "validate_prepare_data and (sub-product) marginal_ln_likelihood vs the reference marginal with correct labels. "
         "Non-trivial: more than one survey and the surveys are interleaved in time or listed out of order.",
